@@ -187,7 +187,8 @@ pub fn parse_name(cfg: &Cfg, name: &str) -> Parsed {
         .unwrap_or(-1);
     let mut rest = caps.name("rest").map(|m| m.as_str()).unwrap_or("");
     if rest.is_empty() {
-        if z || cfg.fixed_is_empty() {
+        // the name without infix belongs to the family only if no rotation is configured
+        if z || cfg.fixed_is_empty() || cfg.rot {
             return foreign;
         }
         return Parsed {
@@ -365,6 +366,21 @@ pub fn observe(dir: &Path, cfg: &Cfg, link: Option<&PathBuf>, raw: bool) -> Valu
             if raw {
                 f["hex"] = json!(hex(&bytes));
             }
+            // the harness's own rendering of the parsed instants (used by the name checks of C16)
+            f["istr"] = json!(if pr.k == "ts" {
+                (crate::handler::epoch() + chrono::Duration::seconds(pr.i))
+                    .format(&cfg.fmt)
+                    .to_string()
+            } else {
+                String::new()
+            });
+            f["ststr"] = json!(if pr.st >= 0 {
+                (crate::handler::epoch() + chrono::Duration::seconds(pr.st))
+                    .format("%Y-%m-%d_%H-%M-%S")
+                    .to_string()
+            } else {
+                String::new()
+            });
             files.push(f);
         } else {
             let (kind, bytes) = if md.is_file() {
